@@ -5,7 +5,10 @@
    could_be_unfinished_utf8; and -- with `for` loops over lists / str, `break` / `continue`,
    objects given by their instance attributes, local lists built with append / extend --
    the slicing algorithms FmtStr.__getitem__, FmtStr.divides, width_aware_slice,
-   FmtStr.width_aware_slice).  There is no `while`: every loop is a `for` over a value that
+   FmtStr.width_aware_slice; and -- with chained comparisons, keyword arguments, isinstance
+   against the module's own classes, a filtered generator expression consumed by `*`, method
+   calls and `+` dispatched to the methods of a user class, assert with a message expression --
+   FmtStr.splice, append, setslice_with_length, setitem, __add__, __radd__).  There is no `while`: every loop is a `for` over a value that
    is already a finite list, i.e. structural recursion; the interpreter is total without fuel.
 
    The translator gen/gen_pure.py dumps the Python AST of those functions, node by
@@ -44,6 +47,12 @@
                 a model function standing for library behaviour),
      c_method   the meaning of method calls that are library behaviour (bytes.decode,
                 codecs.getdecoder): the ORACLES, named and instantiated in Spec/PyEnv.v.
+     c_classes  which names of c_funs are classes of the module (isinstance(x, Name)),
+     c_sigs     the parameter names of the callables that are called with keyword arguments
+                (both generated from the live module: Gen/PureFmt.v py_classes, py_signatures).
+   A member of a user class is an entry of c_funs: "Class.name" a property (obj.name),
+   "Class.name()" a method (obj.name(args), and "Class.__add__()" / "Class.__radd__()" for +),
+   "Class.__len__" for len(obj).
    No proofs in this file. *)
 From Coq Require Import String Ascii.
 From Curtsies Require Import Model.Base.
@@ -80,7 +89,7 @@ Inductive expr :=
 | EBin (op : binop) (a b : expr)
 | ENeg (a : expr)
 | ENot (a : expr)
-| ECmp (op : cmpop) (a b : expr)          (* one comparison; chains are refused by the translator *)
+| ECmp (op : cmpop) (a b : expr)          (* one comparison; a chain is [ECmpChain] *)
 | EAnd (a b : expr)                        (* a and b : value of a if falsy, else value of b *)
 | EOr (a b : expr)
 | EAttr (a : expr) (name : string)         (* .start .stop .step of a slice object; Enum.MEMBER *)
@@ -95,7 +104,16 @@ Inductive expr :=
 | ETuple (es : list expr)                  (* (e1, ..., en) *)
 | ECond (test body orelse : expr)          (* body if test else orelse *)
 | ECallStar (f : string) (a : expr)        (* f( *a ) *)
-| ECallN (f : string) (args : list expr).  (* f(a1, ..., an) for n = 0 or n > 3 *)
+| ECallN (f : string) (args : list expr)   (* f(a1, ..., an) for n = 0 or n > 3 *)
+| ECmpChain (a : expr) (rest : list (cmpop * expr))
+                                           (* a op1 b op2 c ...: two or more comparisons; every operand is evaluated
+                                              at most once, the chain stops at the first false comparison *)
+| ECallKw (f : string) (args : list expr) (kws : list (string * expr))
+                                           (* f(a1, ..., an, k1=v1, ...): at least one keyword argument *)
+| EGenIf (elt : expr) (x : string) (it : expr) (cond : expr)
+                                           (* (elt for x in it if cond) *)
+| EMethN (a : expr) (name : string) (args : list expr).
+                                           (* a.name(a1, ..., an) for n = 0 or n > 1: a method of a user class *)
 
 (* the target of a `for`: a name, or a tuple of names *)
 Inductive target := TName (x : string) | TTuple (xs : list string).
@@ -109,6 +127,7 @@ Inductive stmt :=
 | SPass                                    (* docstrings and `pass` *)
 | SExpr (e : expr)                         (* expression statement *)
 | SAssert (c : expr)                       (* assert c [, "constant message"] *)
+| SAssertMsg (c msg : expr)                (* assert c, msg : msg is evaluated when c is false, then AssertionError *)
 | STry (body : list stmt) (ex : exn) (handler orelse : list stmt)
                                            (* try: body  except ex: handler  else: orelse   (one handler, no finally) *)
 | SFor (tgt : target) (it : expr) (body : list stmt)     (* for tgt in it: body     (no else) *)
@@ -140,10 +159,18 @@ Fixpoint lookup_fun (x : string) (fs : funs) : option (list val -> res val) :=
 Record ctx := mkCtx {
   c_globals : env;
   c_funs : funs;
-  c_method : val -> string -> val -> res val
+  c_method : val -> string -> val -> res val;
+  (* the names of [c_funs] that are CLASSES of the module: the entry of [c_funs] is the
+     constructor, the instances are the values [VRec name _], and the class has no subclass
+     (the translator checks that): this is what isinstance(x, name) needs to know *)
+  c_classes : list string;
+  (* the parameter names (positional-or-keyword, in order) of the callables of [c_funs] that
+     may be called with keyword arguments; generated from the live module (Gen/PureFmt.v
+     [py_signatures]) *)
+  c_sigs : list (string * list string)
 }.
 
-Definition empty_ctx : ctx := mkCtx [] [] (fun _ _ _ => Raise OtherError).
+Definition empty_ctx : ctx := mkCtx [] [] (fun _ _ _ => Raise OtherError) [] [].
 
 (* code points of a Coq string literal (ASCII) *)
 Fixpoint codes (s : string) : list N :=
@@ -603,11 +630,39 @@ Definition index (a i : val) : res val :=
   | _ => Raise OtherError
   end.
 
+(* ---- methods and operators of user classes --------------------------------------------------
+   obj.name(args) for an object of a user class: the METHOD is the entry "Class.name()" of
+   [c_funs] (with the parentheses: a property is "Class.name"), applied to obj :: args.
+   a + b with an object of a user class on one side: Python tries type(a).__add__(a, b), and if
+   that does not exist or returns NotImplemented, type(b).__radd__(b, a).  Here: a an object ->
+   its "__add__()" (a method that answers NotImplemented is an error outcome: `NotImplemented`
+   is not a value of the subset); a a str / bytes / int / bool / None / list / tuple (their own
+   + refuses an object of a user class) and b an object -> b's "__radd__()". *)
+Definition method_name (cls name : string) : string := (cls ++ "." ++ name ++ "()")%string.
+
+Definition call_method (c : ctx) (obj : val) (name : string) (args : list val) : res val :=
+  match obj with
+  | VRec cls _ =>
+      match lookup_fun (method_name cls name) (c_funs c) with
+      | Some g => g (obj :: args)
+      | None => Raise OtherError
+      end
+  | _ => Raise OtherError
+  end.
+
+Definition bin_in (c : ctx) (op : binop) (a b : val) : res val :=
+  match op, a, b with
+  | BAdd, VRec _ _, _ => call_method c a "__add__" [b]
+  | BAdd, (VStr _ | VBytes _ | VInt _ | VBool _ | VNone | VList _ | VTuple _), VRec _ _ => call_method c b "__radd__" [a]
+  | _, _, _ => eval_bin op a b
+  end.
+
 (* method calls: join is language-level behaviour of bytes / str; the rest is the context's *)
 Definition method1 (c : ctx) (obj : val) (name : string) (arg : val) : res val :=
   match obj with
   | VBytes sep => if String.eqb name "join" then join false sep arg else c_method c obj name arg
   | VStr sep => if String.eqb name "join" then join true sep arg else c_method c obj name arg
+  | VRec _ _ => call_method c obj name [arg]             (* a method of a user class *)
   | _ => c_method c obj name arg
   end.
 
@@ -671,6 +726,81 @@ Definition apply_fun (c : ctx) (r : env) (f : string) (args : list val) : res va
       end
   end.
 
+(* ---- keyword arguments ------------------------------------------------------------------
+   f(a1, ..., an, k1=v1, ...): the callables of a context take a positional list.  The
+   parameter names of f ([c_sigs]) turn the keywords into positions: the keywords must name,
+   each once, exactly the parameters n+1 .. n+m (any order); anything else -- an unknown or
+   repeated keyword, a parameter given twice, a gap that the callee would fill with a default
+   value -- is outside the subset (an error outcome, not a guess). *)
+Fixpoint count {X} (l : list X) : nat := match l with [] => O | _ :: l' => S (count l') end.
+
+Fixpoint lookup_sig (f : string) (sigs : list (string * list string)) : option (list string) :=
+  match sigs with
+  | [] => None
+  | (g, ps) :: sigs' => if String.eqb f g then Some ps else lookup_sig f sigs'
+  end.
+
+(* the value given for parameter p, and the other keyword arguments *)
+Fixpoint take_kw (p : string) (kvs : list (string * val)) : option (val * list (string * val)) :=
+  match kvs with
+  | [] => None
+  | (k, v) :: kvs' =>
+      if String.eqb p k then Some (v, kvs')
+      else match take_kw p kvs' with Some (w, others) => Some (w, (k, v) :: others) | None => None end
+  end.
+
+Fixpoint fill_kws (names : list string) (kvs : list (string * val)) : option (list val) :=
+  match names, kvs with
+  | _, [] => Some []
+  | [], _ :: _ => None
+  | p :: names', _ :: _ =>
+      match take_kw p kvs with
+      | Some (v, kvs') => match fill_kws names' kvs' with Some vs => Some (v :: vs) | None => None end
+      | None => None
+      end
+  end.
+
+Fixpoint cat {X} (a b : list X) : list X := match a with [] => b | x :: a' => x :: cat a' b end.
+
+Definition positional (params : list string) (vs : list val) (kvs : list (string * val)) : option (list val) :=
+  match fill_kws (skipn (count vs) params) kvs with
+  | Some extra => Some (cat vs extra)
+  | None => None
+  end.
+
+(* ---- (elt for x in it if cond): the element outcomes ----------------------------------------
+   [cond] / [elt]: the condition and the element as functions of the value of the loop
+   variable.  A condition that raises is an element that raises (the consumer stops there). *)
+Definition gen_filter (items : list (res val)) (cond elt : val -> res val) : list (res val) :=
+  flat_map (fun item =>
+              match item with
+              | Raise ex => [Raise ex]
+              | Ok v => match cond v with
+                        | Raise ex => [Raise ex]
+                        | Ok t => if testable t then (if truthy t then [elt v] else []) else [Raise OtherError]
+                        end
+              end) items.
+
+(* f( *a ): the elements of a.  A generator is consumed completely by the unpacking, before f
+   is called *)
+Definition unpack (v : val) : res (list val) :=
+  match v with
+  | VGen items => sequence items
+  | _ => elements v
+  end.
+
+(* isinstance(x, C) for a class C of the module ([c_classes]): x is an object of that class.
+   C must still mean the class: not a local, and the constructor is still in [c_funs]
+   ([call_in] removes what the function's locals hide). *)
+Definition is_class (c : ctx) (r : env) (cls : string) : bool :=
+  mem_string cls (c_classes c)
+  && match lookup cls r, lookup_fun cls (c_funs c), lookup cls (c_globals c) with
+     | None, Some _, None => true
+     | _, _, _ => false
+     end.
+Definition instance_of (cls : string) (a : val) : bool :=
+  match a with VRec k _ => String.eqb k cls | _ => false end.
+
 Definition shadowed (c : ctx) (r : env) (f : string) : bool :=
   match lookup f r, lookup_fun f (c_funs c), lookup f (c_globals c) with
   | None, None, None => false
@@ -689,7 +819,7 @@ Fixpoint eval (c : ctx) (r : env) (e : expr) {struct e} : res val :=
   | ENoneC => Ok VNone
   | EStr l => Ok (VStr l)
   | EBytes l => Ok (VBytes l)
-  | EBin op a b => rbind (eval c r a) (fun va => rbind (eval c r b) (fun vb => eval_bin op va vb))
+  | EBin op a b => rbind (eval c r a) (fun va => rbind (eval c r b) (fun vb => bin_in c op va vb))
   | ENeg a => rbind (eval c r a) (fun va => match as_int va with Some z => Ok (VInt (- z))
                                                            | None => if rich va then Raise OtherError else Raise TypeError end)
   | ENot a => rbind (eval c r a) (fun va => if testable va then Ok (VBool (negb (truthy va))) else Raise OtherError)
@@ -701,8 +831,25 @@ Fixpoint eval (c : ctx) (r : env) (e : expr) {struct e} : res val :=
   | ECall2 f a b =>
       if String.eqb f "isinstance" then
         match b with
-        | EVar cls => if shadowed c r f || shadowed c r cls then Raise OtherError
+        | EVar cls => if shadowed c r f then Raise OtherError
+                      else if is_class c r cls then rbind (eval c r a) (fun va => Ok (VBool (instance_of cls va)))
+                      else if shadowed c r cls then Raise OtherError
                       else rbind (eval c r a) (fun va => isinstance cls va)
+        | ETuple es =>
+            (* isinstance(x, (C1, ..., Cn)) with class NAMES: an instance of one of them; every name is
+               looked at (a name that is not a known class is an error whatever the others say) *)
+            if shadowed c r f then Raise OtherError
+            else
+              rbind (eval c r a) (fun va =>
+                (fix any_class (l : list expr) (found : bool) : res val :=
+                   match l with
+                   | [] => Ok (VBool found)
+                   | EVar cls :: l' =>
+                       if is_class c r cls then any_class l' (found || instance_of cls va)
+                       else if shadowed c r cls then Raise OtherError
+                       else rbind (isinstance cls va) (fun t => any_class l' (found || truthy t))
+                   | _ :: _ => Raise OtherError
+                   end) es false)
         | _ => Raise OtherError
         end
       else rbind (eval c r a) (fun va => rbind (eval c r b) (fun vb => apply_fun c r f [va; vb]))
@@ -751,13 +898,60 @@ Fixpoint eval (c : ctx) (r : env) (e : expr) {struct e} : res val :=
         if testable vt then (if truthy vt then eval c r body else eval c r orelse) else Raise OtherError)
   | ECallStar f a =>
       (* f( *a ): the elements of a, unpacked into a fresh argument tuple *)
-      rbind (eval c r a) (fun va => rbind (elements va) (fun vs => apply_fun c r f vs))
+      rbind (eval c r a) (fun va => rbind (unpack va) (fun vs => apply_fun c r f vs))
   | ECallN f es =>
       rbind ((fix evals (l : list expr) : res (list val) :=
                 match l with
                 | [] => Ok []
                 | e' :: l' => rbind (eval c r e') (fun v => rbind (evals l') (fun vs => Ok (v :: vs)))
                 end) es) (fun vs => apply_fun c r f vs)
+  | ECmpChain a rest =>
+      (* a op1 b op2 c  =  (a op1 b) and (b op2 c)  with b evaluated once: the value is the first
+         comparison that is false, else the last one *)
+      rbind (eval c r a) (fun va =>
+        (fix chain (va : val) (l : list (cmpop * expr)) {struct l} : res val :=
+           match l with
+           | [] => Raise OtherError                      (* the translator produces at least two comparisons *)
+           | (op, e') :: l' =>
+               rbind (eval c r e') (fun vb =>
+               rbind (eval_cmp op va vb) (fun t =>
+                 match l' with
+                 | [] => Ok t
+                 | _ :: _ => if testable t then (if truthy t then chain vb l' else Ok t) else Raise OtherError
+                 end))
+           end) va rest)
+  | ECallKw f es kws =>
+      (* positional arguments, then the keyword values, left to right *)
+      rbind ((fix evals (l : list expr) : res (list val) :=
+                match l with
+                | [] => Ok []
+                | e' :: l' => rbind (eval c r e') (fun v => rbind (evals l') (fun vs => Ok (v :: vs)))
+                end) es) (fun vs =>
+      rbind ((fix evalkw (l : list (string * expr)) : res (list (string * val)) :=
+                match l with
+                | [] => Ok []
+                | (k, e') :: l' => rbind (eval c r e') (fun v => rbind (evalkw l') (fun kvs => Ok ((k, v) :: kvs)))
+                end) kws) (fun kvs =>
+      match lookup_sig f (c_sigs c) with
+      | None => Raise OtherError
+      | Some params =>
+          match positional params vs kvs with
+          | Some all => apply_fun c r f all
+          | None => Raise OtherError
+          end
+      end))
+  | EMethN a name es =>
+      rbind (eval c r a) (fun va =>
+      rbind ((fix evals (l : list expr) : res (list val) :=
+                match l with
+                | [] => Ok []
+                | e' :: l' => rbind (eval c r e') (fun v => rbind (evals l') (fun vs => Ok (v :: vs)))
+                end) es) (fun vs => call_method c va name vs))
+  | EGenIf elt x it cond =>
+      (* as [EGenExp], with the elements filtered *)
+      rbind (eval c r it) (fun vi =>
+      rbind (iter_items vi) (fun items =>
+      Ok (VGen (gen_filter items (fun v => eval c (bind_var x v r) cond) (fun v => eval c (bind_var x v r) elt)))))
   end.
 
 (* ---- statements ------------------------------------------------------------------ *)
@@ -852,6 +1046,15 @@ Fixpoint exec (c : ctx) (s : stmt) (r : env) {struct s} : outcome :=
       | Raise ex => Raised ex
       | Ok v => if testable v then (if truthy v then Next r else Raised AssertionError) else Raised OtherError
       end                                                                  (* python without -O *)
+  | SAssertMsg cnd msg =>
+      match eval c r cnd with
+      | Raise ex => Raised ex
+      | Ok v =>
+          if testable v then
+            (if truthy v then Next r
+             else match eval c r msg with Ok _ => Raised AssertionError | Raise ex => Raised ex end)
+          else Raised OtherError
+      end
   | STry body ex handler orelse =>
       (* a body of ONE statement: nothing can have been assigned when it raises *)
       match body with
@@ -954,7 +1157,19 @@ Fixpoint expr_ok (M : list string) (e : expr) {struct e} : bool :=
   | EList es | ETuple es | ECallN _ es => all es
   | ECond t a b => test t && expr_ok M a && expr_ok M b
   | ECallStar _ (EVar _) => true
+  (* f( *(elt for x in xs if cond) ) with xs a name: the generator iterates over the list and is consumed by
+     the unpacking, before f is called: no reference to the list survives *)
+  | ECallStar _ (EGenIf elt x (EVar _) cond) => negb (mem_string x M) && expr_ok M elt && expr_ok M cond
+  | ECallStar _ (EGenExp elt x (EVar _)) => negb (mem_string x M) && expr_ok M elt
   | ECallStar _ a => expr_ok M a
+  | ECmpChain a rest =>
+      expr_ok M a && (fix allp (l : list (cmpop * expr)) : bool :=
+                        match l with [] => true | (_, e') :: l' => expr_ok M e' && allp l' end) rest
+  | ECallKw _ es kws =>
+      all es && (fix allk (l : list (string * expr)) : bool :=
+                   match l with [] => true | (_, e') :: l' => expr_ok M e' && allk l' end) kws
+  | EGenIf elt x it cond => negb (mem_string x M) && expr_ok M elt && expr_ok M it && expr_ok M cond
+  | EMethN a _ es => expr_ok M a && all es
   end.
 
 Fixpoint stmt_ok (M : list string) (s : stmt) {struct s} : bool :=
@@ -970,6 +1185,7 @@ Fixpoint stmt_ok (M : list string) (s : stmt) {struct s} : bool :=
   | SRaise _ | SPass | SBreak | SContinue => true
   | SExpr e => match mutation_of e with Some (_, _, arg) => expr_ok M arg | None => expr_ok M e end
   | SAssert c => test c
+  | SAssertMsg c m => test c && expr_ok M m
   | STry b _ h o => block b && block h && block o
   | SFor t it body =>
       negb (existsb (fun x => mem_string x M) (match t with TName x => [x] | TTuple xs => xs end))
@@ -995,6 +1211,14 @@ Fixpoint called_e (e : expr) {struct e} : list string :=
   | ECond t a b => called_e t ++ called_e a ++ called_e b
   | ECallStar f a => f :: called_e a
   | ECallN f es => f :: all es
+  | ECmpChain a rest =>
+      called_e a ++ (fix allp (l : list (cmpop * expr)) : list string :=
+                       match l with [] => [] | (_, e') :: l' => called_e e' ++ allp l' end) rest
+  | ECallKw f es kws =>
+      f :: all es ++ (fix allk (l : list (string * expr)) : list string :=
+                        match l with [] => [] | (_, e') :: l' => called_e e' ++ allk l' end) kws
+  | EGenIf elt _ it cond => called_e elt ++ called_e it ++ called_e cond
+  | EMethN a _ es => called_e a ++ all es
   end.
 Fixpoint genvars_e (e : expr) {struct e} : list string :=
   let opt := fun (o : option expr) => match o with None => [] | Some x => genvars_e x end in
@@ -1008,6 +1232,14 @@ Fixpoint genvars_e (e : expr) {struct e} : list string :=
   | ESub a lo hi => genvars_e a ++ opt lo ++ opt hi
   | EGenExp elt x it => x :: genvars_e elt ++ genvars_e it
   | EList es | ETuple es | ECallN _ es => all es
+  | ECmpChain a rest =>
+      genvars_e a ++ (fix allp (l : list (cmpop * expr)) : list string :=
+                        match l with [] => [] | (_, e') :: l' => genvars_e e' ++ allp l' end) rest
+  | ECallKw _ es kws =>
+      all es ++ (fix allk (l : list (string * expr)) : list string :=
+                   match l with [] => [] | (_, e') :: l' => genvars_e e' ++ allk l' end) kws
+  | EGenIf elt x it cond => x :: genvars_e elt ++ genvars_e it ++ genvars_e cond
+  | EMethN a _ es => genvars_e a ++ all es
   end.
 (* the expressions of a statement, all blocks included *)
 Fixpoint exprs_of (s : stmt) {struct s} : list expr :=
@@ -1015,6 +1247,7 @@ Fixpoint exprs_of (s : stmt) {struct s} : list expr :=
                  match l with [] => [] | s' :: l' => exprs_of s' ++ block l' end in
   match s with
   | SAssign _ e | SAugAssign _ _ e | SReturn e | SExpr e | SAssert e => [e]
+  | SAssertMsg c m => [c; m]
   | SIf c th el => c :: block th ++ block el
   | STry b _ h o => block b ++ block h ++ block o
   | SFor _ it body => it :: block body
@@ -1033,8 +1266,6 @@ Definition mut_ok (f : fundef) : bool :=
 
 (* call a function: positional arguments, missing ones from the defaults of the last
    parameters (evaluated in the module's scope); falling off the end returns None *)
-Fixpoint count {X} (l : list X) : nat := match l with [] => O | _ :: l' => S (count l') end.
-
 Definition call_in (c : ctx) (f : fundef) (args : list val) : res val :=
   let np := count (f_params f) in
   let na := count args in
@@ -1044,7 +1275,7 @@ Definition call_in (c : ctx) (f : fundef) (args : list val) : res val :=
     let locals := f_params f ++ assigned_block (f_body f) in
     let c' := mkCtx (filter (fun kv => negb (mem_string (fst kv) locals)) (c_globals c))
                     (filter (fun kv => negb (mem_string (fst kv) locals)) (c_funs c))
-                    (c_method c) in
+                    (c_method c) (c_classes c) (c_sigs c) in
     match (fix evals (l : list expr) : res (list val) :=
              match l with
              | [] => Ok []
